@@ -27,6 +27,7 @@ ENCODED = ["pylife.stress.collective.load_collective:LoadCollective._validate",
            "pylife.stress.collective.load_collective:LoadCollective.shift",
            "pylife.stress.collective.load_collective:LoadCollective.range_histogram",
            "pylife.stress.collective.load_collective:LoadCollective.histogram",
+           "pylife.stress.rainflow.recorders:LoopValueRecorder.histogram", "pylife.stress.rainflow.recorders:LoopValueRecorder.record_values",
            "numpy.lib._histograms_impl:histogram", "numpy.lib._histograms_impl:histogramdd",
            "pylife.utils.histogram:rebin_histogram", "pylife.utils.histogram:_do_rebin_histogram",
            "pylife.utils.histogram:_fail_if_binning_invalid", "pylife.utils.histogram:combine_histogram"]
@@ -37,7 +38,7 @@ ASSUMPTIONS = ["floats are modelled as reals",
                "enumerated from the dyadic grid {0, 0.5, 1, 2, 3, 4}",
                "R = lower/upper with the IEEE cases of the implementation: upper == 0 gives -inf for lower < 0 and "
                "the documented fill value 0 for 0/0"]
-OUTSIDE = ("recorder histograms (LoopValueRecorder.histogram); histogramming along an axis (groupby); symbolic bin edges "
+OUTSIDE = ("symbolic bin edges "
            "(IntervalIndex is float64-backed; for a number of bins the rows that fix the data span are therefore concrete); "
            "collectives with more rows than the bound; which of two adjacent classes receives a cycle exactly on their "
            "common limit (the property leaves it open)")
@@ -55,6 +56,8 @@ def bounds(tier):
             "histogrammed_rows": ("1 row: edge lists / IntervalIndex / IntervalArray of 1..%d classes; 2 rows: %s; %s"
                                   "number of bins 1..3: 2 concrete + 1..%d symbolic rows")
                                  % ((2, "one class, edge list", "", 1) if tier == "quick" else (3, "1..2 classes, every form", "3 rows: one class, edge list; ", 2)),
+            "histograms_along_an_axis": "2 elements x 1 cycle, 1..2 classes" if tier == "quick" else "2..3 elements, 1..2 cycles each (3 rows in all), 1..2 classes",
+            "recorder_histogram": "1..%d recorded loops, 1..3 classes per axis" % (2 if tier == "quick" else 3),
             "binnings": "all gap-free binnings with 1..%d classes on the grid %s; integer binnings 1..3"
                         % (2 if tier == "quick" else 4, GRID)}
 
@@ -102,6 +105,19 @@ def cases(tier):
                 if m >= 2:
                     c["_split"] = 4
                 out.append(c)
+    # histograms per element along an index axis (extra index level)
+    for shape, edges in ([([1, 1], [0.0, 4.0]), ([1, 1], [0.0, 1.0, 3.0])] + ([] if q else [([2, 1], [0.0, 4.0]), ([1, 1, 1], [0.0, 4.0])])):
+        out.append({"kind": "hist_axis", "shape": shape, "edges": edges, "_weight": (6 * len(edges)) ** (2 * sum(shape)), "_split": 4 if sum(shape) == 2 else 6})
+    # from/to histogram of a rainflow recorder
+    for m in ((1, 2) if q else (1, 2, 3)):
+        for ef, et, spec in (([-1.0, 0.0, 2.0], [-1.0, 0.0, 2.0], "edges"), ([-1.0, 0.0, 2.0], [-1.0, 0.0, 2.0], "pair"),
+                             ([-2.0, 2.0], [-1.0, 0.5, 3.0], "pair"), ([0.0, 1.0, 2.0, 4.0], [-4.0, 4.0], "pair")):
+            if m >= 2 and (q or m == 3) and spec != "edges":
+                continue
+            c = {"kind": "hist_recorder", "m": m, "edges_from": ef, "edges_to": et, "spec": spec, "_weight": 25 ** m}
+            if m >= 2:
+                c["_split"] = 4 if m == 2 else 7
+            out.append(c)
     bs = _binnings(2 if q else 4)
     rng = np.random.default_rng(14)
     pairs = []
@@ -171,6 +187,11 @@ def _apply_canary(ctx):
     elif cn == "mean_classes_labelled_with_range_limits":
         ctx.patch(LC.LoadCollective, "histogram",
                   mutated(LC.LoadCollective.histogram, "pd.IntervalIndex.from_breaks(mean_bins)", "pd.IntervalIndex.from_breaks(range_bins)"))
+    elif cn == "recorder_histogram_levels_swapped":
+        import pylife.stress.rainflow.recorders as REC
+        ctx.patch(REC.LoopValueRecorder, "histogram",
+                  mutated(REC.LoopValueRecorder.histogram, "pd.MultiIndex.from_product([index_fr, index_to], names=['from', 'to'])",
+                          "pd.MultiIndex.from_product([index_to, index_fr], names=['from', 'to'])"))
     elif cn is not None:
         raise RuntimeError("unknown canary " + cn)
 
@@ -182,8 +203,9 @@ CANARIES = [
     {"name": "combine_first_only", "cases": [{"kind": "combine", "pairs": [([0.0, 1.0, 2.0], [0.0, 1.0, 4.0])]}]},
     {"name": "range_histogram_of_amplitudes", "cases": [{"kind": "hist", "m": 1, "edges": [0.0, 1.0, 3.0], "spec": "edges", "layout": "unique"}]},
     {"name": "mean_classes_labelled_with_range_limits", "cases": [{"kind": "hist_count", "m": 1, "bins": 2, "span": [[0.0, 1.0], [3.0, -1.0]]}]},
+    {"name": "recorder_histogram_levels_swapped", "cases": [{"kind": "hist_recorder", "m": 1, "edges_from": [-2.0, 2.0], "edges_to": [-1.0, 0.5, 3.0], "spec": "pair"}]},
 ]
-QUICK_CANARIES = 6
+QUICK_CANARIES = 7
 
 
 def _col(ctx, vals):
@@ -236,6 +258,14 @@ def run(ctx, case):
         with warnings.catch_warnings():
             warnings.simplefilter("ignore")
             return _run_hist(ctx, case)
+    if kind == "hist_axis":
+        with warnings.catch_warnings():
+            warnings.simplefilter("ignore")
+            return _run_hist_axis(ctx, case)
+    if kind == "hist_recorder":
+        with warnings.catch_warnings():
+            warnings.simplefilter("ignore")
+            return _run_hist_recorder(ctx, case)
     with warnings.catch_warnings():
         warnings.simplefilter("ignore")
         if kind == "rebin":
@@ -454,6 +484,77 @@ def _run_hist(ctx, case):
         agree = all(float(marg[k[0]]) == float(v) for k, v in zip(k1, c1))
         ctx.claim(sym_or(sym_not(all_means_inside), agree), "hist.marginal", (c1, [marg[k[0]] for k in k1]))
     return {"range_histogram": [float(v) for v in c1], "histogram": [float(v) for v in c2]}
+
+
+def _run_hist_axis(ctx, case):
+    """histograms per element of a collective with an extra index level (aggregation along `cycle_number`)"""
+    if ctx.sym:
+        ctx.patch(pd.IntervalIndex, "from_breaks", _concrete_breaks(pd.IntervalIndex.from_breaks))
+    shape, edges = case["shape"], case["edges"]          # cycles per element
+    elements = [30, 10, 20][:len(shape)]
+    tuples, fr, to, owner = [], [], [], []
+    for e, ncyc in zip(elements, shape):
+        for c in range(ncyc):
+            i = len(fr)
+            tuples.append((e, c))
+            fr.append(ctx.real("f%d" % i))
+            to.append(ctx.real("t%d" % i))
+            owner.append(e)
+    ctx.hint(sym_and(*[sym_and(v >= -8, v <= 8) for v in fr + to]))
+    idx = pd.MultiIndex.from_tuples(tuples, names=["element_id", "cycle_number"])
+    df = pd.DataFrame({"from": _col(ctx, fr), "to": _col(ctx, to)}, index=idx)
+    lc = df.load_collective
+    rng = [s_max(f, t) - s_min(f, t) for f, t in zip(fr, to)]
+    mean = [(f + t) / 2 for f, t in zip(fr, to)]
+    rh = lc.range_histogram(list(edges), "cycle_number").to_pandas()
+    h2 = lc.histogram(list(edges), "cycle_number").to_pandas()
+    ctx.claim(list(rh.index.names) == ["element_id", "range"] and list(h2.index.names) == ["element_id", "range", "mean"],
+              "hist.classes", ("level names", list(rh.index.names), list(h2.index.names)))
+    ctx.claim(sorted(set(rh.index.get_level_values("element_id"))) == sorted(elements) and
+              sorted(set(h2.index.get_level_values("element_id"))) == sorted(elements), "hist.classes", "one histogram per element")
+    obs = {}
+    sig = []
+    for e in elements:
+        rows = [i for i, o in enumerate(owner) if o == e]
+        r1 = rh.xs(e, level="element_id")
+        r2 = h2.xs(e, level="element_id")
+        k1, c1, l1 = _check_hist(ctx, r1, [(rng[i],) for i in rows], ["range"], [list(edges)], "range_histogram of element %d" % e)
+        k2, c2, l2 = _check_hist(ctx, r2, [(rng[i], mean[i]) for i in rows], ["range", "mean"], [list(edges), list(edges)], "histogram of element %d" % e)
+        marg = {}
+        for k, v in zip(k2, c2):
+            marg[k[0]] = marg.get(k[0], 0) + v
+        all_means_inside = sym_and(*[sym_and(l2[1][0] <= mean[i], mean[i] <= l2[1][1]) for i in rows])
+        agree = sorted(marg) == sorted(k[0] for k in k1) and all(float(marg[k[0]]) == float(v) for k, v in zip(k1, c1))
+        ctx.claim(sym_or(sym_not(all_means_inside), agree), "hist.marginal", (e, c1, marg))
+        obs["e%d" % e] = [float(v) for v in c1] + [float(v) for v in c2]
+        sig.append(tuple(int(v) for v in c1))
+    ctx.signature(("hist_axis", tuple(shape), str(edges), tuple(sig)), trivial=not any(any(x) for x in sig))
+    return obs
+
+
+def _run_hist_recorder(ctx, case):
+    """LoopValueRecorder.histogram: from/to matrix of the recorded loops (values recorded in two calls)"""
+    import pylife.stress.rainflow.recorders as REC
+    m = case["m"]
+    if ctx.sym:
+        ctx.patch(pd.IntervalIndex, "from_breaks", _concrete_breaks(pd.IntervalIndex.from_breaks))
+    fr = [ctx.real("f%d" % i) for i in range(m)]
+    to = [ctx.real("t%d" % i) for i in range(m)]
+    ctx.hint(sym_and(*[sym_and(v >= -8, v <= 8) for v in fr + to]))
+    rec = REC.LoopValueRecorder()
+    k = (m + 1) // 2
+    rec.record_values(_col(ctx, fr[:k]), _col(ctx, to[:k]))
+    if m > k:
+        rec.record_values(_col(ctx, fr[k:]), _col(ctx, to[k:]))
+    ef, et = case["edges_from"], case["edges_to"]
+    bins = list(ef) if (ef == et and len(ef) > 2 and case.get("spec") != "pair") else [np.array(ef), np.array(et)]
+    h = rec.histogram(bins)
+    ctx.claim(list(h.index.names) == ["from", "to"], "hist.classes", "level names")
+    keys, counts, lims = _check_hist(ctx, h, list(zip(fr, to)), ["from", "to"], [list(ef), list(et)], "recorder histogram")
+    ctx.signature(("hist_recorder", m, str(ef), str(et), tuple(int(v) for v in counts)), trivial=not any(int(v) for v in counts))
+    coll = rec.collective
+    ctx.claim(eq_struct(list(coll["from"]), fr) and eq_struct(list(coll["to"]), to), "hist.total", "recorded loops")
+    return {"histogram": [float(v) for v in counts]}
 
 
 def _run_collective(ctx, case):
